@@ -20,6 +20,12 @@ theorem lineToks_field_ne (n : Nat) (f : FieldD) (h : SimpleField f) (s : Nat) :
   rw [hhead]
   simp
 
+theorem lineToks_map_ne (n : Nat) (f : FieldD) (h : MapField f) (s : Nat) : 1 ≤ (lineToks (fieldLine n f) s).length := by
+  obtain ⟨_, _, _, hlab, hn, _, k, abs, first, rest, hk, hf, hr, hty⟩ := h
+  unfold fieldLine
+  rw [hty, hlab, lineToks_map n k abs first rest f.name f.number s hk hf hr hn]
+  simp [mapLineToks]
+
 theorem lineToks_value_ne (n : Nat) (f : FieldD) (h : SimpleValue f) (s : Nat) : 1 ≤ (lineToks (valueLine n f) s).length := by
   unfold valueLine
   rw [lineToks_value n f.name f.number s h.2.2.2.2.2.1]
@@ -30,7 +36,7 @@ theorem count_values : ∀ (es : List Item), SimpleValues es → ∀ (n : Nat) (
   | [], _, _, _, _, _, _ => by simp [needAll]
   | .field f :: r, h, n, first, lt, L, g => by
     simp only [SimpleValues] at h
-    rw [toksOf_elems_cons n (.field f) r first lt g L (Or.inr h.1)]
+    rw [toksOf_elems_cons n (.field f) r first lt g L (Or.inr (Or.inl h.1))]
     have ih := count_values r h.2 n false (Item.field f).typeOrder
       (rdItem (.field f) (startLine (g || gapBefore first lt (.field f)) L)).2 (Item.field f).gapEnder
     have h1 := lineToks_value_ne n f h.1 (startLine (g || gapBefore first lt (.field f)) L)
@@ -39,21 +45,40 @@ theorem count_values : ∀ (es : List Item), SimpleValues es → ∀ (n : Nat) (
   | .rpc _ _ _ _ _ _ :: _, h, _, _, _, _, _ => by simp [SimpleValues] at h
   | .block _ _ _ _ _ _ _ :: _, h, _, _, _, _, _ => by simp [SimpleValues] at h
 
+theorem count_members : ∀ (es : List Item), SimpleMembers es → ∀ (n : Nat) (first : Bool) (lt L : Nat) (g : Bool),
+    es.length ≤ (toksOf (elemsCmds n es first 0 lt) g L).length ∧ needAll es = 0
+  | [], _, _, _, _, _, _ => by simp [needAll]
+  | .field f :: r, h, n, first, lt, L, g => by
+    simp only [SimpleMembers] at h
+    rw [toksOf_elems_cons n (.field f) r first lt g L (Or.inl h.1.1)]
+    have ih := count_members r h.2 n false (Item.field f).typeOrder
+      (rdItem (.field f) (startLine (g || gapBefore first lt (.field f)) L)).2 (Item.field f).gapEnder
+    have h1 := lineToks_field_ne n f h.1.1 (startLine (g || gapBefore first lt (.field f)) L)
+    simp only [itemToks, leafLine, h.1.1.1, List.length_append, List.length_cons, needAll, need1] at ih h1 ⊢
+    omega
+  | .rpc _ _ _ _ _ _ :: _, h, _, _, _, _, _ => by simp [SimpleMembers] at h
+  | .block _ _ _ _ _ _ _ :: _, h, _, _, _, _, _ => by simp [SimpleMembers] at h
+
 mutual
 theorem count_item : ∀ (e : Item), SimpleItem e → ∀ (n s : Nat), 1 + need1 e ≤ (itemToks n e s).length
   | .field f, h, n, s => by
     simp only [SimpleItem] at h
-    have := lineToks_field_ne n f h s
-    simp only [itemToks, leafLine, h.1, need1]
-    omega
+    rcases h with h | h
+    · have := lineToks_field_ne n f h s
+      simp only [itemToks, leafLine, h.1, need1]
+      omega
+    · have := lineToks_map_ne n f h s
+      simp only [itemToks, leafLine, h.1, need1]
+      omega
   | .rpc _ _ _ _ _ _, h, _, _ => h.elim
   | .block kw t l i name opts kids, h, n, s => by
     simp only [SimpleItem] at h
     obtain ⟨hl, ho, hname, hcase⟩ := h
     have hkwI : IsIdent kw := by
-      rcases hcase with ⟨h, _⟩ | ⟨h, _⟩ <;> rw [h]
+      rcases hcase with ⟨h, _⟩ | ⟨h, _⟩ | ⟨h, _⟩ <;> rw [h]
       · exact isIdent_message
       · exact isIdent_enum
+      · exact isIdent_oneof
     simp only [itemToks, need1]
     split
     · rename_i he
@@ -63,10 +88,12 @@ theorem count_item : ∀ (e : Item), SimpleItem e → ∀ (n s : Nat), 1 + need1
       simp [needAll]
     · rw [lineToks_open n kw name s hkwI hname, lineToks_close]
       simp only [List.length_append, List.length_cons, List.length_nil]
-      rcases hcase with ⟨_, _, hk⟩ | ⟨_, _, hk⟩
+      rcases hcase with ⟨_, _, hk⟩ | ⟨_, _, hk⟩ | ⟨_, _, _, hk⟩
       · have := count_kids kids hk (n + 1) true 0 (s + 1) false
         omega
       · have := count_values kids hk (n + 1) true 0 (s + 1) false
+        omega
+      · have := count_members kids hk (n + 1) true 0 (s + 1) false
         omega
 theorem count_kids : ∀ (es : List Item), SimpleKids es → ∀ (n : Nat) (first : Bool) (lt L : Nat) (g : Bool),
     es.length + needAll es ≤ (toksOf (elemsCmds n es first 0 lt) g L).length
@@ -314,7 +341,8 @@ theorem plain_unloc : ∀ (e : Item), Plain e → e.unloc
   | .field f, h => by
     simp only [Plain] at h
     simp only [Item.unloc, FieldD.unloc]
-    rcases h with h | h
+    rcases h with h | h | h
+    · exact ⟨h.2.1, by rw [h.2.2.1]; simp⟩
     · exact ⟨h.2.1, by rw [h.2.2.1]; simp⟩
     · exact ⟨h.2.1, by rw [h.2.2.1]; simp⟩
   | .rpc _ _ _ _ _ _, h => by
